@@ -149,7 +149,8 @@ def fold_interpolate_modes(model: Model, method="spline", nq=2, np_=4, ctx=None)
                 args = [as_sym(b.get(nm)) for nm in names[:3]]
                 return Tup([sp.Function(f"OUT{r}_{tag}")(*args, as_sym(b.get("order", sp.Symbol("DEFAULT")))) for r in range(3)])
             intr[f"{MGm}:{q}"] = helper
-    intr["numpy.array"] = lambda ev, a, k: DF_LIB["numpy.array"](ev, a, k, None, None)
+    from .dfmodel import df_wrap
+    intr["numpy.array"] = df_wrap(DF_LIB["numpy.array"])
     ev = Ev(model, {}, intr, ctx=ctx)
     out = ev.call_def(f, mod, f"{MGm}:interpolate_modes", [inp, VA], {"method": method, "order": ORD})
     return out, calls, (MV, VA, ORD)
